@@ -11,6 +11,11 @@ CLAIMED = {
    note="Trusted: Lean kernel + propext/Quot.sound/Classical.choice; SHAKE-256 is a parameter (collision resistance assumed); the model is hand-written and tied to /repo by the M1 stream (≈19k comparisons per quick run); text-codec round trip is checked by correspondence + oracle, not yet by a theorem.",
    technique="Lean 4 proof over executable model + differential correspondence with the Rust code",
    design="§7 C18"),
+ "C14": dict(
+   text="Lean 4 theorems over a literal model of the VB20 polynomial code: loop invariants of create_coefficients (ω(y)(y+α) = ∏A(α)·d_D(y)/∏D(α) − d_A(y)), batch update preserves the witness relation and equals the from-scratch witness, for every history of batches of any sizes by induction, deleted elements are never updated, single-step formulas for one element, non-membership analogue; all for every field, key and element. Tied to the real vb20 API by comparing every coefficient vector, accumulator and witness (batch, multi-batch in every contiguous grouping, single-step, non-membership) in discrete-log space with the real points.",
+   note="Trusted: Lean kernel + standard axioms; reading of the pairing check as (y+α)•C = V (bilinearity + non-degeneracy of BLS12-381); generic-position hypotheses y+α≠0, d+α≠0 are explicit. The multi-batch formula (evaluate_deltas) is tied by correspondence and oracle only; its theorem is the stepwise history theorem.",
+   technique="Lean 4 proof (loop invariants, induction over histories) + differential correspondence in discrete-log space",
+   design="§7 C14"),
  "C20": dict(
    text="Lean 4 totality theorems (no model entry point reaches the explicit `panic` outcome, for every input) over the Outcome-typed model of the claim parsers/decoders, tied to the real code by comparing outcome classes ok|err|panic under catch_unwind on enumerated and random untrusted inputs.",
    note="Trusted: as C18. Covered entry points so far: ClaimData::from_text/from_bytes/to_text, ScalarClaim::encode_*/decode_*; other entry points are exercised by the harness catalogue only. Allocation failure and stack depth are outside the model.",
